@@ -311,7 +311,11 @@ def main(argv=None):
     real_violations = []
     for v in violations:
         if v['kind'] == 'cex' and hasattr(prop, 'classify'):
-            kid = prop.classify(v['ob'], v['cex'])
+            try:
+                kid = prop.classify(v['ob'], v['cex'])
+            except Exception as e:      # an unclassifiable counterexample is a violation
+                notes.append('classify(%r) crashed: %r' % (v['cex'], e))
+                kid = None
             if kid and any(k['id'] == kid for k in kfs):
                 line = 'KNOWN-FINDING: property=%s %s' % (
                     pid, [k['what'] for k in kfs if k['id'] == kid][0])
